@@ -416,7 +416,144 @@ func c18LiveEval(f []string) (string, []string) {
 	return g + "\t" + p, tags
 }
 
-var c18LiveOps = []string{"w", "c", "s", "c,w", "c,f", "c,f,c", "w,c", "h200,c", "h200,c,w", "f,c", "c,c,c", "s,w", "s,f,s", "w,f,w", "h404,c,f", "c,h500,w", "f,w", "h201,w,s,c"}
+// ---- c18.bodiless: HEAD requests and the statuses without a body, over a real connection ----
+//
+// c18.bodiless  blocks  path  ae  innerhdr  body  plen  ops  ret  method
+//   out = <with gzip> TAB <without> TAB <head>; each: status ce vary etag cl bodylen
+//     cl: - absent / + present / * HEAD (not compared);  head: for HEAD requests whether Content-Encoding, Vary, ETag,
+//     and Content-Type equal those of the same request sent as GET (same|differs:<names>), else -
+//   net/http decides what goes on the wire (no body for HEAD/204/304, no Content-Length on 204/304): trusted.
+
+func c18WireRun(mids []httpserver.Middleware, inner httpserver.Handler, method, path, ae string) (string, http.Header) {
+	h := inner
+	for i := len(mids) - 1; i >= 0; i-- {
+		h = mids[i](h)
+	}
+	srv := httptest.NewServer(http.HandlerFunc(func(w http.ResponseWriter, r *http.Request) {
+		status, _ := h.ServeHTTP(w, r)
+		if status >= 400 {
+			httpserver.DefaultErrorFunc(w, r, status)
+		}
+	}))
+	defer srv.Close()
+	req, err := http.NewRequest(method, srv.URL+path, nil)
+	if err != nil {
+		return "0 - 0 - - 0", nil
+	}
+	if ae != "" {
+		req.Header.Set("Accept-Encoding", ae)
+	}
+	tr := &http.Transport{DisableCompression: true}
+	defer tr.CloseIdleConnections()
+	res, err := tr.RoundTrip(req)
+	if err != nil {
+		return "0 - 0 - - X-roundtrip-error", nil
+	}
+	body, rerr := io.ReadAll(res.Body)
+	res.Body.Close()
+	ce := strings.Join(res.Header.Values("Content-Encoding"), ",")
+	if ce == "" {
+		ce = "-"
+	} else {
+		ce = hx.HS(ce)
+	}
+	vary := "0"
+	for _, v := range res.Header.Values("Vary") {
+		if v == "Accept-Encoding" {
+			vary = "1"
+		}
+	}
+	etag := "-"
+	if e := res.Header.Get("ETag"); e != "" {
+		etag = "s"
+		if strings.HasPrefix(e, "W/") {
+			etag = "w"
+		}
+	}
+	cl := "-"
+	if len(res.Header.Values("Content-Length")) > 0 {
+		cl = "+"
+	}
+	if method == "HEAD" {
+		cl = "*" // net/http computes Content-Length for HEAD from what the handler wrote: not compared
+	}
+	bl := strconv.Itoa(len(body))
+	if rerr != nil {
+		bl = "X-read-error"
+	}
+	return fmt.Sprintf("%d %s %s %s %s %s", res.StatusCode, ce, vary, etag, cl, bl), res.Header
+}
+
+func c18BodilessEval(f []string) (string, []string) {
+	if len(f) != 9 {
+		return "bad-case", nil
+	}
+	mids, err := c18Middleware(f[0])
+	if err != nil {
+		return "setup-error:" + err.Error(), nil
+	}
+	path, ae := hx.UnHS(f[1]), hx.UnHS(f[2])
+	hp := strings.Split(f[3], "|")
+	if len(hp) != 4 {
+		return "bad-case", nil
+	}
+	phys, err := c18Encode(f[4])
+	if err != nil || strconv.Itoa(len(phys)) != f[5] {
+		return "bad-case", nil
+	}
+	var ops []string
+	if f[6] != "" {
+		ops = strings.Split(f[6], ",")
+	}
+	ret, _ := strconv.Atoi(f[7])
+	method := f[8]
+	g, gh := c18WireRun(mids, c18Inner(hp, phys, ops, ret), method, path, ae)
+	p, _ := c18WireRun(nil, c18Inner(hp, phys, ops, ret), method, path, ae)
+	head := "-"
+	if method == "HEAD" {
+		_, gg := c18WireRun(mids, c18Inner(hp, phys, ops, ret), "GET", path, ae)
+		var diff []string
+		for _, k := range []string{"Content-Encoding", "Vary", "Etag", "Content-Type"} { // Content-Length: net/http computes it differently for HEAD
+			if strings.Join(gh.Values(k), ",") != strings.Join(gg.Values(k), ",") {
+				diff = append(diff, k)
+			}
+		}
+		head = "same"
+		if len(diff) > 0 {
+			head = "differs:" + strings.Join(diff, "+")
+		}
+	}
+	return g + "\t" + p + "\t" + head, []string{method, "status=" + strings.Split(p, " ")[0]}
+}
+
+func c18BodilessGen(g *hx.Gen) {
+	for _, method := range []string{"HEAD", "GET"} {
+		for _, ops := range []string{"h200,w", "w", "h204", "h204,w", "h304", "h304,w", "h200", "c", "h200,w,f", "f,w", "h404,w", ""} {
+			if method == "GET" && !strings.Contains(ops, "204") && !strings.Contains(ops, "304") {
+				continue
+			}
+			for _, ae := range []string{"gzip", "", "gzip;q=0"} {
+				for _, bl := range []string{c18Blocks[0], c18Blocks[4], c18Blocks[2]} {
+					for _, ce := range c18CEs[:3] {
+						for _, cl := range []bool{false, true} {
+							for _, etag := range []string{"s", "-"} {
+								term, plen := c18Body(ce.wrap, 40)
+								cls := "-"
+								if cl {
+									cls = strconv.Itoa(plen)
+								}
+								g.Case(bl, hx.HS("/a.txt"), hx.HS(ae), hx.HS(ce.hdr)+"|"+cls+"|0|"+etag, term, strconv.Itoa(plen), ops, "0", method)
+							}
+						}
+					}
+				}
+			}
+		}
+	}
+}
+
+var c18LiveOps = []string{"w", "c", "s", "c,w", "c,f", "c,f,c", "w,c", "h200,c", "h200,c,w", "f,c", "c,c,c", "s,w", "s,f,s", "w,f,w", "h404,c,f", "c,h500,w", "f,w", "h201,w,s,c",
+	"h103,w", "h103,h200,w", "h103,h404,w", "h103,c,w", "h103,h204"} // 103 Early Hints: informational, the response header proper follows
 
 func c18LiveGen(g *hx.Gen) {
 	for _, ops := range c18LiveOps {
@@ -804,6 +941,7 @@ func c18RangeGen(g *hx.Gen) {
 
 func init() {
 	hx.Register(&hx.Stream{ID: "C18", Name: "c18.range", Gen: c18RangeGen, Eval: c18RangeEval, Setup: c18StaticSetup, Teardown: c18StaticTeardown})
+	hx.Register(&hx.Stream{ID: "C18", Name: "c18.bodiless", Gen: c18BodilessGen, Eval: c18BodilessEval})
 	hx.Register(&hx.Stream{ID: "C18", Name: "c18.live", Gen: c18LiveGen, Eval: c18LiveEval})
 	hx.Register(&hx.Stream{ID: "C18", Name: "c18.wrap", Gen: c18WrapGen, Eval: c18WrapEval})
 	hx.Register(&hx.Stream{ID: "C18", Name: "c18.static", Gen: c18StaticGen, Eval: c18StaticEval, Setup: c18StaticSetup, Teardown: c18StaticTeardown})
